@@ -481,6 +481,26 @@ void ServerConn::saslFailure(const char *condition)
     saslStep = 0;
 }
 
+// a resource that is bound again replaces the old session of that full JID (RFC 6120 7.7.2.2), and with it
+// the old session's stream-management state
+static void dropSmSessionsOf(ScriptedServer *srv, const QString &fullJid, SmSession *except)
+{
+    for (auto it = srv->smSessions.begin(); it != srv->smSessions.end();) {
+        SmSession *s = it.value();
+        if (s != except && s->fullJid == fullJid && !s->attached) {
+            for (auto *c : srv->conns) {
+                if (c->sm == s) {
+                    c->sm = nullptr;
+                }
+            }
+            delete s;
+            it = srv->smSessions.erase(it);
+        } else {
+            ++it;
+        }
+    }
+}
+
 QString ServerConn::newSmSession(bool resumeRequested)
 {
     auto *s = new SmSession;
@@ -548,6 +568,15 @@ void ServerConn::saslSuccess(const QByteArray &additional)
             resumed = true;
             bound = true;
         } else {
+            if (s) {
+                for (auto *c : srv->conns) {
+                    if (c->sm == s) {
+                        c->sm = nullptr;
+                    }
+                }
+                srv->smSessions.remove(previd);
+                delete s;
+            }
             inner += QByteArray("<failed xmlns='") + NS_SM + "'><item-not-found xmlns='" + NS_STANZAS + "'/></failed>";
         }
     }
@@ -559,9 +588,13 @@ void ServerConn::saslSuccess(const QByteArray &additional)
         inner += QByteArray("<bound xmlns='") + NS_BIND2 + "'>";
         const QDomElement en = child(bindReq, "enable", NS_SM);
         if (!en.isNull() && p.sm != 0) {
-            const QString r = attr(en, "resume");
-            newSmSession(r == QLatin1String("true") || r == QLatin1String("1"));
-            inner += smEnabledXml(sm);
+            if (p.quirk("enable") == QLatin1String("refuse")) {
+                inner += QByteArray("<failed xmlns='") + NS_SM + "'><internal-server-error xmlns='" + NS_STANZAS + "'/></failed>";
+            } else {
+                const QString r = attr(en, "resume");
+                newSmSession(r == QLatin1String("true") || r == QLatin1String("1"));
+                inner += smEnabledXml(sm);
+            }
         }
         inner += "</bound>";
         authzid = fullJid;
@@ -958,6 +991,16 @@ void ServerConn::handleSmNonza(const QDomElement &el)
                 send(st);
             }
         } else {
+            // item-not-found: the server does not (any longer) know that session, so it can never be resumed later either
+            if (s) {
+                for (auto *c : srv->conns) {
+                    if (c->sm == s) {
+                        c->sm = nullptr;
+                    }
+                }
+                srv->smSessions.remove(previd);
+                delete s;
+            }
             send(QByteArray("<failed xmlns='") + NS_SM + "'><item-not-found xmlns='" + NS_STANZAS + "'/></failed>");
         }
     } else if (tag == QLatin1String("r")) {
@@ -1039,6 +1082,7 @@ void ServerConn::handleIq(const QDomElement &el, const QByteArray &)
         }
         fullJid = local + QLatin1Char('@') + p.domain + QLatin1Char('/') + res;
         bound = true;
+        dropSmSessionsOf(srv, fullJid, nullptr);
         const QString bq = p.quirk("bind");
         if (bq == QLatin1String("conflict")) {
             send("<iq type='error' id='" + idq + "'><error type='cancel'><conflict xmlns='" + QByteArray(NS_STANZAS) + "'/></error></iq>");
